@@ -202,10 +202,26 @@ def apply_mod(g, m):
     raise ValueError(m)
 
 
+def apply_mod_raw(g, m):
+    """The same wrapper, written with the public wrapper classes instead of the gate's methods (the methods
+    re-associate some nestings, e.g. controlled(1).controlled(1) -> controlled(2); the constructors do not)."""
+    from orquestra.quantum.circuits import _gates as G
+
+    if m[0] == "dag":
+        return G.Dagger(g)
+    if m[0] == "c":
+        return G.ControlledGate(g, m[1])
+    if m[0] == "pow":
+        return G.Power(g, m[1])
+    if m[0] == "exp":
+        return G.Exponential(g)
+    raise ValueError(m)
+
+
 def build_gate(spec):
     g = build_base(spec)
     for m in spec.get("mods", []):
-        g = apply_mod(g, m)
+        g = apply_mod_raw(g, m) if spec.get("raw") else apply_mod(g, m)
     return g
 
 
@@ -404,6 +420,12 @@ def expr_specs(depth=2, **sym_kw):
     return st.recursive(sym, extend, max_leaves=depth * 2 + 1)
 
 
+def python_complex():
+    """Spec of a Python complex number (a Python number like any other)."""
+    part = st.one_of(st.floats(-7, 7, allow_nan=False), st.sampled_from([0.0, 1.0, -0.5, 0.30000000000000004, 1e-20, 1e22, 123456.789]))
+    return st.builds(lambda a, b: ["cplx", a, b], part, part)
+
+
 def python_numbers():
     return st.one_of(
         st.floats(-7, 7, allow_nan=False),
@@ -414,7 +436,7 @@ def python_numbers():
 
 
 def is_symbolic(p):
-    return isinstance(p, list)
+    return isinstance(p, list) and p[0] != "cplx"
 
 
 def spec_has_symbols(gspec):
